@@ -105,13 +105,41 @@ Proof. eexists; eexists; split; [vm_compute; reflexivity|]. vm_compute. reflexiv
 
 Local Notation len := List.length.
 
+(* the allocation invariant: what was allocated is covered by (largest unit) x (steps + excess + bytes consumed);
+   L is any upper bound of the input length *)
+Definition tm (L : nat) (s : st) : N := steps s + excess s + N.of_nat (L - len (rest s)).
+Definition J (L : nat) (s : st) : Prop := (alloc s <= um s * tm L s)%N.
+
 Definition R (s s' : st) : Prop :=
-  (len (rest s') <= len (rest s))%nat /\ (has_err s = true -> has_err s' = true).
+  (len (rest s') <= len (rest s))%nat /\ (has_err s = true -> has_err s' = true) /\
+  (um s <= um s')%N /\ (forall L, (len (rest s) <= L)%nat -> J L s -> J L s').
 
 Lemma R_refl : forall s, R s s.
-Proof. intros s. split; auto. Qed.
+Proof. intros s. repeat split; auto. lia. Qed.
 Lemma R_trans : forall a b c, R a b -> R b c -> R a c.
-Proof. intros a b c [H1 H2] [H3 H4]. split; [lia|auto]. Qed.
+Proof.
+  intros a b c [H1 [H2 [H3 H4]]] [H5 [H6 [H7 H8]]]. split; [lia|]. split; [auto|]. split; [lia|].
+  intros L HL HJ. apply H8; [lia|]. apply H4; auto.
+Qed.
+
+(* J survives an update that allocates nothing, keeps the unit and does not lose time *)
+Lemma J_keep : forall L s s', alloc s' = alloc s -> (um s <= um s')%N -> (tm L s <= tm L s')%N -> J L s -> J L s'.
+Proof.
+  intros L s s' Ha Hu Ht HJ. unfold J in *. rewrite Ha.
+  eapply N.le_trans; [exact HJ|]. apply N.mul_le_mono; assumption.
+Qed.
+(* ... or allocates a <= unit * (time gained) *)
+Lemma J_pay : forall L s s' a u d, alloc s' = (alloc s + a)%N -> um s' = N.max (um s) u ->
+  (tm L s + d <= tm L s')%N -> (a <= u * d)%N -> J L s -> J L s'.
+Proof.
+  intros L s s' a u d Ha Hu Ht Had HJ. unfold J in *. rewrite Ha, Hu.
+  assert (H1 : (um s <= N.max (um s) u)%N) by lia. assert (H2 : (u <= N.max (um s) u)%N) by lia.
+  set (m := N.max (um s) u) in *.
+  assert ((um s * tm L s <= m * tm L s)%N) by (apply N.mul_le_mono_r; exact H1).
+  assert ((u * d <= m * d)%N) by (apply N.mul_le_mono_r; exact H2).
+  assert ((m * (tm L s + d) <= m * tm L s')%N) by (apply N.mul_le_mono_l; exact Ht).
+  lia.
+Qed.
 
 (* every state a result tree mentions is R-after s0 *)
 Fixpoint allR {A} (s0 : st) (r : out A) : Prop :=
@@ -205,32 +233,64 @@ Qed.
 Lemma has_err_merge : forall s e, has_err s = true -> (match merge (err s) e with Some _ => true | None => false end) = true.
 Proof. intros s e. unfold has_err, merge. destruct (err s); [reflexivity|discriminate]. Qed.
 
+Ltac rkeep s := intros L HL HJ; eapply (J_keep L s); [reflexivity|cbn; lia|unfold tm; cbn; lia|exact HJ].
+
 Lemma R_set_rest : forall s r e d, (len r <= len (rest s))%nat -> R s (set_rest s r (merge (err s) e) d).
-Proof. intros s r e d H. split; [exact H|]. unfold has_err at 2. cbn. apply has_err_merge. Qed.
+Proof.
+  intros s r e d H. split; [exact H|]. split; [unfold has_err at 2; cbn; apply has_err_merge|]. split; [cbn; lia|].
+  intros L HL HJ. eapply (J_keep L s); [reflexivity|cbn; lia|unfold tm; cbn; lia|exact HJ].
+Qed.
 Lemma R_set_rest_same : forall s r d, (len r <= len (rest s))%nat -> R s (set_rest s r (err s) d).
-Proof. intros s r d H. split; [exact H|]. unfold has_err. cbn. auto. Qed.
+Proof.
+  intros s r d H. split; [exact H|]. split; [unfold has_err; cbn; auto|]. split; [cbn; lia|].
+  intros L HL HJ. eapply (J_keep L s); [reflexivity|cbn; lia|unfold tm; cbn; lia|exact HJ].
+Qed.
 Lemma R_set_error : forall s k, R s (set_error s k).
-Proof. intros s k. split; [cbn; lia|]. unfold has_err. cbn. destruct (err s); auto. Qed.
+Proof. intros s k. split; [cbn; lia|]. split; [unfold has_err; cbn; destruct (err s); auto|]. split; [cbn; lia|rkeep s]. Qed.
 Lemma R_force_error : forall s k, R s (force_error s k).
-Proof. intros s k. split; [cbn; lia|]. unfold has_err. cbn. auto. Qed.
+Proof. intros s k. split; [cbn; lia|]. split; [unfold has_err; cbn; auto|]. split; [cbn; lia|rkeep s]. Qed.
 Lemma R_add_ref : forall s r, R s (add_ref s r).
-Proof. intros s r. unfold add_ref. destruct (simple s); [apply R_refl|]. split; [cbn; lia|unfold has_err; cbn; auto]. Qed.
+Proof.
+  intros s r. unfold add_ref. destruct (simple s); [apply R_refl|].
+  split; [cbn; lia|]. split; [unfold has_err; cbn; auto|]. split; [cbn; lia|rkeep s].
+Qed.
 Lemma R_add_class : forall s c, R s (add_class s c).
-Proof. intros. split; [cbn; lia|unfold has_err; cbn; auto]. Qed.
+Proof. intros. split; [cbn; lia|]. split; [unfold has_err; cbn; auto|]. split; [cbn; lia|rkeep s]. Qed.
 Lemma R_add_alloc : forall s n, R s (add_alloc s n).
-Proof. intros. split; [cbn; lia|unfold has_err; cbn; auto]. Qed.
+Proof.
+  intros. split; [cbn; lia|]. split; [unfold has_err; cbn; auto|]. split; [cbn; lia|].
+  intros L HL HJ. eapply (J_pay L s _ n n 1); [reflexivity|reflexivity|unfold tm; cbn; lia|lia|exact HJ].
+Qed.
+Lemma R_charge : forall s n, R s (charge s n).
+Proof. intros. unfold charge. destruct (n =? 0)%N; [apply R_refl|apply R_add_alloc]. Qed.
 Lemma R_add_excess : forall s n, R s (add_excess s n).
-Proof. intros. split; [cbn; lia|unfold has_err; cbn; auto]. Qed.
+Proof. intros. split; [cbn; lia|]. split; [unfold has_err; cbn; auto|]. split; [cbn; lia|rkeep s]. Qed.
 Lemma R_add_steps : forall s n, R s (add_steps s n).
-Proof. intros. split; [cbn; lia|unfold has_err; cbn; auto]. Qed.
+Proof. intros. split; [cbn; lia|]. split; [unfold has_err; cbn; auto|]. split; [cbn; lia|rkeep s]. Qed.
 Lemma R_set_corrupt : forall s, R s (set_corrupt s).
-Proof. intros. split; [cbn; lia|unfold has_err; cbn; auto]. Qed.
+Proof. intros. split; [cbn; lia|]. split; [unfold has_err; cbn; auto|]. split; [cbn; lia|rkeep s]. Qed.
 Lemma R_set_simple : forall s b, R s (set_simple s b).
-Proof. intros. split; [cbn; lia|unfold has_err; cbn; auto]. Qed.
+Proof. intros. split; [cbn; lia|]. split; [unfold has_err; cbn; auto|]. split; [cbn; lia|rkeep s]. Qed.
 Lemma R_reset_refs : forall s, R s (reset_refs s).
-Proof. intros. split; [cbn; lia|unfold has_err; cbn; auto]. Qed.
+Proof. intros. split; [cbn; lia|]. split; [unfold has_err; cbn; auto|]. split; [cbn; lia|rkeep s]. Qed.
 Lemma R_spin_by : forall s n p, R s (spin_by s n p).
-Proof. intros. split; [cbn; lia|unfold has_err; cbn; auto]. Qed.
+Proof.
+  intros. split; [cbn; lia|]. split; [unfold has_err; cbn; auto|]. split; [cbn; lia|].
+  intros L HL HJ. eapply (J_pay L s _ (n * p) p n); [reflexivity|reflexivity|unfold tm; cbn; lia|lia|exact HJ].
+Qed.
+Lemma R_skip_by : forall s n p, R s (skip_by s n p).
+Proof.
+  intros. split; [cbn; lia|]. split; [unfold has_err; cbn; auto|]. split; [cbn; lia|].
+  intros L HL HJ. eapply (J_pay L s _ (n * p) p n); [reflexivity|reflexivity|unfold tm; cbn; lia|lia|exact HJ].
+Qed.
+(* the input ran out: everything left counts as consumed *)
+Lemma R_short_by : forall s e ex a u, (a <= u * (ex + N.of_nat (len (rest s))))%N ->
+  R s (short_by s (merge (err s) e) ex a u).
+Proof.
+  intros s e ex a u Ha. split; [cbn; lia|]. split; [unfold has_err at 2; cbn; apply has_err_merge|]. split; [cbn; lia|].
+  intros L HL HJ. eapply (J_pay L s _ a u (ex + N.of_nat (len (rest s)))); [reflexivity|reflexivity| |exact Ha|exact HJ].
+  unfold tm. cbn [steps excess rest short_by len]. lia.
+Qed.
 
 (* ---- primitives returning a pair *)
 Lemma next_byte_eq : forall s, next_byte s =
@@ -284,11 +344,13 @@ Ltac solveR :=
   | |- R ?s (add_class ?x _) => apply (R_trans s x); [solveR|apply R_add_class]
   | |- R ?s (add_alloc ?x _) => apply (R_trans s x); [solveR|apply R_add_alloc]
   | |- R ?s (add_excess ?x _) => apply (R_trans s x); [solveR|apply R_add_excess]
+  | |- R ?s (charge ?x _) => apply (R_trans s x); [solveR|apply R_charge]
   | |- R ?s (add_steps ?x _) => apply (R_trans s x); [solveR|apply R_add_steps]
   | |- R ?s (set_corrupt ?x) => apply (R_trans s x); [solveR|apply R_set_corrupt]
   | |- R ?s (set_simple ?x _) => apply (R_trans s x); [solveR|apply R_set_simple]
   | |- R ?s (reset_refs ?x) => apply (R_trans s x); [solveR|apply R_reset_refs]
   | |- R ?s (spin_by ?x _ _) => apply (R_trans s x); [solveR|apply R_spin_by]
+  | |- R ?s (skip_by ?x _ _) => apply (R_trans s x); [solveR|apply R_skip_by]
   | |- R ?s (skip1 ?x) => apply (R_trans s x); [solveR|apply R_skip1]
   | |- R ?s (read_time ?x) => apply (R_trans s x); [solveR|apply R_read_time]
   | |- R ?s (read_datetime ?x) => apply (R_trans s x); [solveR|apply R_read_datetime]
@@ -328,6 +390,13 @@ Proof. intros. eapply R_trans; [eassumption|apply R_set_rest; assumption]. Qed.
 Lemma R_set_rest_same_le : forall s0 s r d, R s0 s -> (len r <= len (rest s))%nat -> R s0 (set_rest s r (err s) d).
 Proof. intros. eapply R_trans; [eassumption|apply R_set_rest_same; assumption]. Qed.
 
+Lemma fits_false : forall w n, fits w n = false -> (Z.of_nat (len w) < n)%Z.
+Proof.
+  induction w as [|b w IH]; intros n H; cbn [fits] in H.
+  - destruct (n <=? 0)%Z eqn:E; [discriminate|]. cbn. lia.
+  - destruct (n <=? 0)%Z eqn:E; [discriminate|]. apply IH in H. cbn [len]. lia.
+Qed.
+
 Lemma allR_next_n : forall fx n s, allR s (next_n fx n s).
 Proof.
   intros fx n s. unfold next_n. destruct (rest s) as [|b w] eqn:E.
@@ -335,13 +404,12 @@ Proof.
   - destruct (n <? 0)%Z; [leafA|].
     assert (Hs : forall k d, R s (set_rest s (skipn k (b :: w)) (err s) d)).
     { intros k d. apply R_set_rest_same. rewrite E. apply len_skipn. }
-    assert (He : forall e d, R s (set_rest s [] (merge (err s) e) d)).
-    { intros e d. apply R_set_rest. cbn. lia. }
-    destruct (fits (b :: w) n); [cbn [allR]; apply Hs|].
-    destruct (fx_next fx); [cbn [allR]; eapply R_trans; [apply He|apply R_add_excess]|].
-    destruct (max_alloc <? Z.to_N n)%N; cbn [allR].
-    + split; [apply R_refl|]. eapply R_trans; [apply He|apply R_add_excess].
-    + eapply R_trans; [apply He|]. eapply R_trans; [apply R_add_alloc|apply R_add_excess].
+    destruct (fits (b :: w) n) eqn:Ef; [cbn [allR]; apply Hs|].
+    apply fits_false in Ef.
+    assert (H0 : forall ex, R s (short_by s (merge (err s) (Some EEOF)) ex 0 1)) by (intros; apply R_short_by; lia).
+    destruct (fx_next fx); [cbn [allR]; apply H0|].
+    destruct (max_alloc <? Z.to_N n)%N; cbn [allR]; [split; [apply R_refl|apply H0]|].
+    apply R_short_by. rewrite E. lia.
 Qed.
 
 Lemma allR_read_str_slow : forall fx n b w s, rest s = b :: w -> allR s (read_str_slow fx n (b :: w) s).
@@ -349,15 +417,13 @@ Proof.
   intros fx n b w s E. unfold read_str_slow.
   assert (Hs : forall k d, R s (set_rest s (skipn k (b :: w)) (err s) d)).
   { intros k d. apply R_set_rest_same. rewrite E. apply len_skipn. }
-  assert (He : forall e d, R s (set_rest s [] (merge (err s) e) d)).
-  { intros e d. apply R_set_rest. cbn. lia. }
+  assert (H0 : forall ex, R s (short_by s (merge (err s) (Some EEOF)) ex 0 3)) by (intros; apply R_short_by; lia).
   destruct (str_scan _ false _ _ _); try leafA.
   destruct ((off <? len (b :: w)) || _); [cbn [allR]; apply Hs|].
-  destruct (fx_str fx); [cbn [allR]; eapply R_trans; [apply He|apply R_add_excess]|].
-  destruct (wrap_int (n0 * 3) <? 0)%Z; [cbn [allR]; split; [apply R_refl|eapply R_trans; [apply He|apply R_add_excess]]|].
-  destruct (max_alloc <? _)%N; cbn [allR].
-  + split; [apply R_refl|eapply R_trans; [apply He|apply R_add_excess]].
-  + eapply R_trans; [apply He|]. eapply R_trans; [apply R_add_excess|apply R_add_alloc].
+  destruct (fx_str fx); [cbn [allR]; apply H0|].
+  destruct (wrap_int (n0 * 3) <? 0)%Z; [cbn [allR]; split; [apply R_refl|apply H0]|].
+  destruct (max_alloc <? _)%N; cbn [allR]; [split; [apply R_refl|apply H0]|].
+  apply R_short_by. lia.
 Qed.
 
 Lemma allR_read_str : forall fx n s, allR s (read_str fx n s).
@@ -425,15 +491,15 @@ Ltac stepB :=
   | |- allR ?s0 (read_float _ _ ?x) => apply (allR_weaken _ _ s0 x); [solveR|apply allR_read_float]
   | |- allR ?s0 (parse_force _ _ _ ?x) => apply (allR_weaken _ _ s0 x); [solveR|apply allR_parse_force]
   | |- allR ?s0 (parse_soft _ _ _ ?x) => apply (allR_weaken _ _ s0 x); [solveR|apply allR_parse_soft]
-  | H : forall r s, allR s (convert _ _ r ?e s) |- allR ?s0 (convert _ _ _ ?e ?x) =>
+  | H : forall ch r s, allR s (convert _ _ ch r ?e s) |- allR ?s0 (convert _ _ _ _ ?e ?x) =>
       apply (allR_weaken _ _ s0 x); [solveR|apply H]
   | _ => stepA
   end.
 Ltac solveB := repeat stepB.
 
-Lemma allR_convert : forall dest r s, allR s (convert orc fx r dest s).
+Lemma allR_convert : forall dest ch r s, allR s (convert orc fx ch r dest s).
 Proof.
-  induction dest; intros r s; destruct r; cbn [convert]; solveB.
+  induction dest; intros ch r s; destruct r; cbn [convert]; solveB.
 Qed.
 
 Lemma allR_read_reference : forall dest s, allR s (read_reference orc fx dest s).
@@ -450,19 +516,19 @@ Lemma allR_counted : forall m per np n s, allR s (counted fx m per np n s).
 Proof. intros m per np n s. unfold counted. solveB; destruct m; leafA. Qed.
 
 (* loops: the body keeps R, so does the loop *)
-Lemma allR_loop : forall (body : st -> out unit) per, (forall x, allR x (body x)) ->
-  forall k n s, allR s (loop fx k body per n s).
+Lemma allR_loop : forall (body : st -> out unit) slot per, (forall x, allR x (body x)) ->
+  forall k n s, allR s (loop fx k body slot per n s).
 Proof.
-  intros body per Hb. induction k as [|k IH]; intros n s; cbn [loop]; solveB.
-  - apply Hb.
+  intros body slot per Hb. induction k as [|k IH]; intros n s; cbn [loop]; solveB.
+  - apply (allR_weaken _ _ s (charge s slot)); [apply R_charge|apply Hb].
   - eapply allR_weaken; [apply R_refl|apply IH].
 Qed.
 
-Lemma allR_iter_names : forall (body : bytes -> st -> out unit) per, (forall nm x, allR x (body nm x)) ->
-  forall l s, allR s (iter_names fx body per l s).
+Lemma allR_iter_names : forall (body : bytes -> st -> out unit) slot, (forall nm x, allR x (body nm x)) ->
+  forall l s, allR s (iter_names fx body slot l s).
 Proof.
-  intros body per Hb. induction l as [|nm l IH]; intros s; cbn [iter_names]; solveB.
-  - apply Hb.
+  intros body slot Hb. induction l as [|nm l IH]; intros s; cbn [iter_names]; solveB.
+  - apply (allR_weaken _ _ s (charge s slot)); [apply R_charge|apply Hb].
   - eapply allR_weaken; [apply R_refl|apply IH].
 Qed.
 
@@ -489,7 +555,7 @@ Ltac stepC :=
   | |- allR ?s0 (rt _ _ ?x) => apply (allR_weaken _ _ s0 x); [solveR|apply Hrt]
   | |- allR ?s0 (read_reference _ _ _ ?x) => apply (allR_weaken _ _ s0 x); [solveR|apply allR_read_reference]
   | |- allR ?s0 (counted _ _ _ _ _ ?x) => apply (allR_weaken _ _ s0 x); [solveR|apply allR_counted]
-  | |- allR ?s0 (loop _ _ _ _ _ ?x) => apply (allR_weaken _ _ s0 x); [solveR|apply allR_loop; intros ?]
+  | |- allR ?s0 (loop _ _ _ _ _ _ ?x) => apply (allR_weaken _ _ s0 x); [solveR|apply allR_loop; intros ?]
   | |- allR ?s0 (over_names _ _ _ _ _ ?x) => apply (allR_weaken _ _ s0 x); [solveR|apply allR_over_names; intros ? ?]
   | |- allR _ (unit_of _) => unfold unit_of
   | |- allR _ (match flookup _ _ with Some _ => _ | None => _ end) => destruct (flookup _ _)
@@ -624,7 +690,7 @@ Proof.
   apply (allR_weaken _ _ s (add_steps s 1)); [apply R_add_steps|].
   apply allR_dec_tag_body.
   - intros sh' x. destruct (stuck x).
-    + cbn [allR]. eapply R_trans; [apply R_add_alloc|apply R_add_steps].
+    + cbn [allR]. apply R_add_alloc.
     + pose proof (R_next_byte x) as H. destruct (next_byte x) as [t x1]. cbn [snd] in H.
       eapply allR_weaken; [exact H|apply IH].
   - intros sh' t x. apply IH.
@@ -633,7 +699,7 @@ Qed.
 Lemma allR_dec_val : forall fuel sh s, allR s (dec_val orc registry fx fuel sh s).
 Proof.
   intros fuel sh s. unfold dec_val. destruct (stuck s).
-  - cbn [allR]. eapply R_trans; [apply R_add_alloc|apply R_add_steps].
+  - cbn [allR]. apply R_add_alloc.
   - pose proof (R_next_byte s) as H. destruct (next_byte s) as [t x1]. cbn [snd] in H.
     eapply allR_weaken; [exact H|apply allR_dec_tag].
 Qed.
@@ -718,7 +784,7 @@ End Mono.
 
 Lemma stuck_R : forall s s', R s s' -> stuck s = true -> stuck s' = true.
 Proof.
-  intros s s' [H1 H2] H. unfold stuck in *. destruct (rest s) eqn:E; [|discriminate].
+  intros s s' [H1 [H2 _]] H. unfold stuck in *. destruct (rest s) eqn:E; [|discriminate].
   destruct (rest s'); [auto|cbn in H1; lia].
 Qed.
 
